@@ -936,10 +936,22 @@ func c19CLIOne(cfg Config, name string) *Violation {
 	_ = os.WriteFile(a, small("a"), 0o644)
 	_ = os.WriteFile(b, big.Bytes(), 0o644)
 	_ = os.WriteFile(c, small("c"), 0o644)
+	// three more inputs of the same size with the same cue times and different texts (whichever is ready first)
+	var same [3]string
+	for k := range same {
+		var m bytes.Buffer
+		m.WriteString("WEBVTT\n\n")
+		for i := 0; i < 1500; i++ {
+			fmt.Fprintf(&m, "00:%02d:%02d.000 --> 00:%02d:%02d.900\ninput %d cue %d\n\n", i/60%60, i%60, i/60%60, i%60, k, i)
+		}
+		same[k] = filepath.Join(dir, fmt.Sprintf("same%d.vtt", k))
+		_ = os.WriteFile(same[k], m.Bytes(), 0o644)
+	}
 	args := map[string][]string{
 		"merge3":   {"merge", "-i", a, "-i", b, "-i", c},
 		"merge3r":  {"merge", "-i", b, "-i", a, "-i", c},
 		"merge2":   {"merge", "-i", a, "-i", c},
+		"merge4":   {"merge", "-i", a, "-i", same[0], "-i", same[1], "-i", same[2]},
 		"convert":  {"convert", "-i", a},
 		"optimize": {"optimize", "-i", a},
 		"fragment": {"fragment", "-f", "700ms", "-i", a},
@@ -949,7 +961,7 @@ func c19CLIOne(cfg Config, name string) *Violation {
 		return nil
 	}
 	var first []byte
-	for k := 0; k < 6; k++ {
+	for k := 0; k < 10; k++ {
 		for _, ext := range []string{"ttml", "ssa"} {
 			if ext == "ssa" && k > 0 {
 				continue
@@ -981,7 +993,7 @@ func c19CLIOne(cfg Config, name string) *Violation {
 	return nil
 }
 
-var c19CLICases = []string{"merge3", "merge3r", "merge2", "convert", "optimize", "fragment", "sync"}
+var c19CLICases = []string{"merge3", "merge3r", "merge2", "merge4", "convert", "optimize", "fragment", "sync"}
 
 func checkC19Any(cfg Config, ep Episode) *Violation {
 	if ep.Kind == "cli" {
